@@ -417,7 +417,29 @@ func OptGen() []*e1.Program {
 }
 
 func optGenDirected() []*e1.Program {
+	alone := func(p *e1.Program, imps ...string) *e1.Program {
+		p.Isolate = true
+		p.Imports = imps
+		p.Style = render.Dot
+		return p
+	}
 	return []*e1.Program{
+		// one import PATH under two names, one of which loses its only use to dead code the rewriter drops
+		// (a file of its own: no other declaration may use the names)
+		alone(G("opt-import-under-two-names-one-only-used-by-dead-code", `
+for i := 0; i < 2; i++ {
+	YIELD(len(strings.Repeat("x", i)))
+	continue
+	tr.U(str.ToUpper("dead"))
+}
+RETNIL`, "imports", "import-two-names-one-dead"), "strings", "str strings"),
+		alone(G("opt-seq-import-of-the-user-only-used-by-dead-code", `
+for i := 0; i < 2; i++ {
+	YIELD(i)
+	continue
+	tr.U(seq.Normal[int])
+}
+RETNIL`, "imports", "import-two-names-one-dead"), "github.com/goghcrow/go-co/seq"),
 		Raw("opt-user-pull-loop-over-reassigned-iterator", `
 func §src(base, n int) ITER[int] GEN[int]{
 	for i := 0; i < n; i++ {
